@@ -1,5 +1,5 @@
 import AgModel.Proofs.BlockstoreCount
-/-! The exact (completeness) invariant of `AgModel.Blockstore.addShred` for a correct leader's block:
+/-! The exact (completeness) invariant of `AgModel.Blockstore.addShredCore` for a correct leader's block:
     the dissemination `BlockData` is a *function of the set of delivered shreds* (core Lean only). -/
 namespace AgModel.Blockstore
 open AgModel.Merkle HBlock
